@@ -2,6 +2,6 @@
    ExtrOcamlBasic only: bool, option, unit, list, prod, sumbool map to OCaml's own;
    nat, N, Z, positive, byte stay extracted inductive datatypes. *)
 From Coq Require Import Extraction ExtrOcamlBasic.
-From Verif Require Import Base.Bytes Base.Utf8 Bytes.FileModel Lex.Lexer Bytes.Split.
+From Verif Require Import Base.Bytes Base.Utf8 Bytes.FileModel Lex.Lexer Bytes.Split Bytes.Quote.
 Extraction "models.ml" FileModel.position_of FileModel.resolve_pos FileModel.error_string
-  Split.split Lexer.next_token Lexer.init_lexer Lexer.lex_all Lexer.lex_all_np Utf8.decode_rune Utf8.encode_rune Utf8.is_space_rune.
+  Split.split Quote.quote_string Quote.quote_bytes Quote.quote_ident Lexer.next_token Lexer.init_lexer Lexer.lex_all Lexer.lex_all_np Utf8.decode_rune Utf8.encode_rune Utf8.is_space_rune.
